@@ -18,7 +18,11 @@ S  structure: chains of length L; every template an ordered forest of <= K block
 D  decorations: every chain of S with no required flag, times every (site, decoration): one block gets
    a ``for`` around it / a ``for`` around its whole body / a ``for`` printing its loop variable /
    ``{{ x }}`` / super last / super twice / super inside a ``for`` / a matching ``endblock name`` /
-   (root block) a ``block.super``; or one template gets a stray ``{{ x }}`` / stray ``for`` (non-root),
+   (root block) a ``block.super`` / an ``if true`` / ``unless false`` / ``case 1 when 1`` around it (the
+   block being the only node of that body) / an empty body / a whitespace-only body / each of the four
+   control-flow wrappers combined with each of the two blank bodies (the placeholder shape: what the
+   template itself writes for the block says nothing about what its most-derived definition renders);
+   or one template gets a stray ``{{ x }}`` / stray ``for`` (non-root),
    a top-level ``{{ x }}`` (root).
 E  error shapes on the unrequired, super-free chains of S: a duplicate of every block (as next sibling,
    as first child, at the end of the template, inside a ``for``), a mismatched ``endblock`` name on every
@@ -157,8 +161,14 @@ def chains(length: int, kmax: int, maxreq: int, plain: bool = False) -> Iterator
 # ---------------------------------------------------------------------------
 # skeleton -> abstract program
 # ---------------------------------------------------------------------------
-BLOCK_DECOS = ("for_around", "for_inside", "for_i", "var", "endname", "super_last", "super_twice",
-               "super_in_for", "root_super")
+WRAPS = ("for", "if", "unless", "case")
+BLANK_BODIES = ("empty", "ws")
+BLOCK_DECOS = (
+    ("for_around", "for_inside", "for_i", "var", "endname", "super_last", "super_twice", "super_in_for",
+     "root_super", "wrap_if", "wrap_unless", "wrap_case", "body_empty", "body_ws")
+    # the placeholder shape: a block with an empty / whitespace-only body alone inside a control-flow tag
+    + tuple(f"wrap_{w}+body_{b}" for w in WRAPS for b in BLANK_BODIES)
+)
 TEMPLATE_DECOS = ("stray_var", "stray_for", "root_var")
 
 
@@ -167,6 +177,12 @@ def build_block(name: str, level: int, req: int, sup: int, children: list[Any], 
     close = ["text", "]"]
     s = ["super"]
     endname = None
+    wrap = None
+    if deco and deco.startswith("wrap_"):
+        wrap, _, rest = deco[5:].partition("+")
+        deco = rest or None
+    elif deco == "for_around":
+        wrap, deco = "for", None
     if deco == "root_super":
         sup = 1
     pre = [s] if sup else []
@@ -185,9 +201,14 @@ def build_block(name: str, level: int, req: int, sup: int, children: list[Any], 
         body = [open_, ["for", [s]]] + children + [close]
     elif deco == "endname":
         endname = name
+    elif deco == "body_empty":
+        # no text of its own, no super: nothing at all, or nothing but its nested blocks
+        body = list(children)
+    elif deco == "body_ws":
+        body = [["text", " \n"]] + children
     node = ["block", name, bool(req), body, endname]
-    if deco == "for_around":
-        node = ["for", [node]]
+    if wrap is not None:
+        node = [wrap, [node]]  # the block is the only node of the control-flow body
     return node
 
 
@@ -262,7 +283,7 @@ def find_block(nodes: Any, idx: int) -> Any:
                 r = rec(n[3])
                 if r:
                     return r
-            elif n[0] == "for":
+            elif n[0] in M.WRAPPERS:
                 r = rec(n[1])
                 if r:
                     return r
@@ -494,6 +515,7 @@ class C18(Check):
     assumptions = [
         "block names are interchangeable identifiers (canonical renaming a,b,c)",
         "loops iterate the literal range (1..2); render data is {x: 'X'}; no whitespace control; default (strict) mode, default Undefined",
+        "the whitespace emitted by a rendered definition whose body is only whitespace (statement: the definition; engine: blank suppression) is unspecified: such definitions are generated as placeholders and judged only when overridden",
         "block.super in a definition with nothing above it, two extends tags, unreached unsatisfied required blocks, loop variables crossing a block boundary and self-re-entering resolutions are unspecified by statement/docs and excluded",
         "'rejected' (duplicate names, mismatched endblock) is read as: a LiquidError is raised instead of output",
     ]
@@ -525,7 +547,7 @@ class C18(Check):
         for (L, K, R) in t["S"]:
             split("S", L, K, R, False, 1)
         for (L, K) in t["D"]:
-            split("D", L, K, 0, False, 5 * K * L)
+            split("D", L, K, 0, False, 14 * K * L)
         for (L, K) in t["E"]:
             split("E", L, K, 0, True, 4 * K * L)
         sh.append(("C", t["cycle_tail"]))
